@@ -37,6 +37,12 @@ def run(ctx: Ctx):
     from .common import dependency_footprints
 
     dependency_footprints(ctx)
+    from .common import public_values_assembled
+
+    public_values_assembled(ctx, "public-assembled", "_Slice", ("row_share_sum", "column_share_sum", "total_share_sum"))
+    from . import c04
+
+    c04.gather_not_weights(ctx)
 
 
 def totals_last(ctx: Ctx):
